@@ -27,6 +27,10 @@ var worlds = map[string]kernel.WorldFunc{
 	"C06": props.RunC06,
 	"C14": props.RunC14,
 	"C11": props.RunC11,
+	"C19": props.RunC19,
+	"C02": props.RunC02,
+	"C01": props.RunC01,
+	"C20": props.RunC20,
 }
 
 // TestSim is the single entry point of the test binary; the driver script
